@@ -504,6 +504,73 @@ SHIMS = [
 ]
 
 
+def digests(pid: str, seed: int, start: int, count: int, order: str = "fwd") -> dict:
+    """Run digests of `count` run indices (for the determinism self-test)."""
+    prop = load_prop(pid)
+    idxs = list(range(start, start + count))
+    if order == "rev":
+        idxs.reverse()
+    out = {}
+    for idx in idxs:
+        r = exec_tape(prop, seed=run_seed(seed, pid, idx))
+        out[str(idx)] = r.digest + ":" + str(len(r.tape)) + ":" + str(len(r.violations))
+    cleanup_sandbox_root()
+    return out
+
+
+def _digests_job(args):
+    return digests(*args)
+
+
+def selftest_determinism(pids, seed: int, count: int) -> int:
+    """DESIGN 9: same seed twice in-process, in reverse order (different predecessor runs), in fresh
+    interpreters under PYTHONHASHSEED 0 / 1 / random, sequentially and spread over 16 workers."""
+    t0 = time.time()
+    bad = []
+    total = 0
+    per = {}
+    for pid in pids:
+        ref = digests(pid, seed, 0, count)
+        variants = {}
+        variants["again_in_process"] = digests(pid, seed, 0, count)
+        variants["reverse_order"] = digests(pid, seed, 0, count, "rev")
+        for hs in ("0", "1", "random"):
+            envv = dict(os.environ, PYTHONHASHSEED=hs, VERIF_KEEP_HASHSEED="1")
+            p = subprocess.run([sys.executable, os.path.join(VERIF, "cfdpsim", "cli.py"), pid, "--digests", str(count), "--seed", str(seed)],
+                               capture_output=True, text=True, env=envv, cwd=VERIF, timeout=1800)
+            try:
+                variants[f"fresh_interpreter_hashseed_{hs}"] = json.loads(p.stdout.strip().splitlines()[-1])
+            except Exception:  # noqa: BLE001
+                variants[f"fresh_interpreter_hashseed_{hs}"] = {"error": (p.stdout + p.stderr)[-400:]}
+        ctx = mp.get_context("fork")
+        chunk = max(count // 16, 1)
+        jobs = [(pid, seed, s0, min(chunk, count - s0)) for s0 in range(0, count, chunk)]
+        merged = {}
+        with ProcessPoolExecutor(max_workers=16, mp_context=ctx) as ex:
+            for d in ex.map(_digests_job, jobs):
+                merged.update(d)
+        variants["16_workers"] = merged
+        nbad = 0
+        for name, d in variants.items():
+            if d != ref:
+                diff = [k for k in ref if d.get(k) != ref[k]][:5]
+                bad.append(f"{pid}/{name}: {len([k for k in ref if d.get(k) != ref[k]])} of {count} digests differ, e.g. indices {diff} {d.get('error', '')}")
+                nbad += 1
+        per[pid] = {"runs": count, "variants": len(variants), "diverging_variants": nbad}
+        total += count * (len(variants) + 1)
+        print(f"determinism {pid}: {count} run indices x {len(variants) + 1} executions, diverging variants: {nbad}", flush=True)
+    doc = {"seed": seed, "runs_per_property": count, "executions": total, "properties": per, "divergences": bad, "wall_s": round(time.time() - t0, 1)}
+    os.makedirs(os.path.join(OUT, "evidence"), exist_ok=True)
+    with open(os.path.join(OUT, "evidence", "selftest_determinism.json"), "w") as f:
+        json.dump(doc, f, indent=1)
+    if bad:
+        for b in bad:
+            print("HARNESS-ERROR nondeterminism:", b)
+        return 2
+    print(f"OK determinism: {total} executions, no divergence")
+    return 0
+
+
 def main(argv=None) -> int:
     import argparse
 
@@ -516,9 +583,17 @@ def main(argv=None) -> int:
     ap.add_argument("--replay", default=None)
     ap.add_argument("--quiet", action="store_true")
     ap.add_argument("--one", type=int, default=None, help="run a single index and print its trace")
+    ap.add_argument("--digests", type=int, default=None, help="print the digests of the first N run indices as JSON")
+    ap.add_argument("--count", type=int, default=60)
     a = ap.parse_args(argv)
     if a.replay:
         return replay_file(a.replay, verbose=not a.quiet)
+    if a.prop == "selftest-determinism":
+        pids = sorted(f[:-3] for f in os.listdir(os.path.join(VERIF, "props")) if f.startswith("C") and f.endswith(".py") and f[1:3].isdigit())
+        return selftest_determinism(pids, a.seed, a.count)
+    if a.digests is not None:
+        print(json.dumps(digests(a.prop, a.seed, 0, a.digests)))
+        return 0
     if a.one is not None:
         prop = load_prop(a.prop)
         r = exec_tape(prop, seed=run_seed(a.seed, a.prop, a.one), keep_labels=True)
